@@ -126,15 +126,14 @@ Print Assumptions udp_router_never_faults.
 (* HTTP tracker *)
 Theorem http_malformed_fails_one_request : forall ih ev body ts,
   (forall m fl rest, decode_stream body <> Ok (VMap m, fl) rest) ->
-  (decode_stream body <> Fault /\ decode_stream body <> OutOfFuel) ->
   fst (http_receive_done ih ev body ts) = ts /\ is_failure (snd (http_receive_done ih ev body ts)).
-Proof. exact Proofs.http_malformed_fails. Qed.
+Proof. exact Proofs.http_malformed_fails_total. Qed.
 Print Assumptions http_malformed_fails_one_request.
 
-Theorem http_fault_only_from_decoder_partial : forall ih ev body ts,
-  snd (http_receive_done ih ev body ts) = EvFault -> decode_stream body = Fault \/ decode_stream body = OutOfFuel.
-Proof. exact Proofs.http_fault_only_from_decoder. Qed.
-Print Assumptions http_fault_only_from_decoder_partial.
+(* every body: decoding (C07's decode_stream_total) and all key / type checks stay in range *)
+Theorem http_never_faults : forall ih ev body ts, snd (http_receive_done ih ev body ts) <> EvFault.
+Proof. exact Proofs.http_never_faults. Qed.
+Print Assumptions http_never_faults.
 
 (* DHT datagrams, from the raw bytes (static-map decoding by C07's sm_read with the real DhtMessage key table) *)
 Theorem dht_datagram_never_faults : forall own dgram, dht_datagram own dgram <> DFault.
@@ -242,3 +241,11 @@ Theorem find_node_reply_never_faults : forall announce matched own target resp n
   dht_find_node_reply announce matched own target resp nodes <> FnFault.
 Proof. exact ProofsDht.find_node_reply_never_faults. Qed.
 Print Assumptions find_node_reply_never_faults.
+
+(* the whole find_node search driven by DhtServer (initial contacts from the routing table, any sequence of matched
+   replies with arbitrary compact `nodes` strings): no query ever goes to our own id *)
+Theorem search_never_contacts_own_id : forall own t init replies,
+  (forall r, In r init -> fst r <> own) ->
+  forall qs c, In qs (search_run own t init replies) -> In c qs -> c_id c <> own.
+Proof. exact ProofsDht.search_never_contacts_own_id. Qed.
+Print Assumptions search_never_contacts_own_id.
